@@ -453,7 +453,8 @@ def closure(resource):
         if type(o) is EProxy:
             continue
         kids = []
-        for f in o.eClass.eAllReferences():
+        # by feature name: eAllReferences() is a set, and every load of lib.ecore brings its own metamodel
+        for f in sorted(o.eClass.eAllReferences(), key=lambda f: f.name):
             if f.containment and not f.derived:
                 v = o.eGet(f)
                 kids += list(v) if f.many else ([v] if v is not None else [])
@@ -672,11 +673,17 @@ def same_items(a, b):
     return len(a) == len(b) and all(k1 == k2 and v1 is v2 for (k1, v1), (k2, v2) in zip(a, b))
 
 
-def script_tokens(node, intern):
-    """<script> of Model/ResourceSet.v from a trace node (children = nested get_resource calls)."""
+def script_tokens(node, intern, prefix=''):
+    """<script> of Model/ResourceSet.v from a trace node (children = nested get_resource calls).
+    A request = (original uri string, that string normalised against the requester, uri actually loaded).
+    All documents of a case live in one directory: the original string is the basename of what was loaded
+    (prefix = the mapped URI prefix the documents use instead of a relative path, if any)."""
     toks = [len(node['children'])]
+    here = os.path.dirname(node['norm'])
     for c in node['children']:
-        toks += [intern(os.path.basename(c['norm'])), intern(c['norm'])] + script_tokens(c, intern)
+        orig = prefix + os.path.basename(c['norm'])
+        onorm = os.path.abspath(os.path.join(here, orig))
+        toks += [intern(orig), intern(onorm), intern(c['norm'])] + script_tokens(c, intern, prefix)
     toks.append(1 if node['ok'] else 0)
     return toks
 
@@ -1016,7 +1023,7 @@ def compare_with_model(rs, model, res=None):
     toks = []
     for op in rs.oplog:
         if op[0] == 'get':
-            toks += [2, intern(op[1]['norm'])] + script_tokens(op[1], intern)
+            toks += [2, intern(op[1]['norm'])] + script_tokens(op[1], intern, getattr(rs, 'href_prefix', ''))
         else:
             toks += [3, rid.get(id(op[1]), -999)]
     ans = model.ask('rset', toks)
@@ -1046,14 +1053,30 @@ def compare_with_model(rs, model, res=None):
     return None
 
 
-def registry_scenario(env, model, rng, timeout):
+MAPPED = 'http://docs.verif/c18/'
+
+
+def registry_scenario(env, model, rng, timeout, mapped=False):
     """Intact documents only: loads with nested autoloads and alias entries, interleaved with
     remove_resource, every call compared with the registry machine.  -> (n_calls, problems, corr)"""
     from pyecore.resources import URI
     fmt = env.fmt
-    with open(env.path(f'm2.{fmt}'), 'wb') as f:
-        f.write(env.files[f'main.{fmt}'])
     rs = new_rset(env)
+    written = [f'm2.{fmt}']
+    if mapped:
+        # the same documents with every cross-document reference written through a mapped URI
+        # (rset.uri_mapper): the one situation in which _try_resource_autoload keeps an alias key
+        rs.uri_mapper[MAPPED] = env.d + os.sep
+        rs.href_prefix = MAPPED
+        for k in (f'main.{fmt}', f'ext.{fmt}'):
+            doc = env.files[k]
+            for other in (f'main.{fmt}', f'ext.{fmt}'):
+                doc = doc.replace(b'"' + other.encode() + b'#', b'"' + MAPPED.encode() + other.encode() + b'#')
+            with open(env.path(k), 'wb') as f:
+                f.write(doc)
+            written.append(k)
+    with open(env.path(f'm2.{fmt}'), 'wb') as f:
+        f.write(open(env.path(f'main.{fmt}'), 'rb').read())
     problems = []
     names = [f'prior.{fmt}', f'm2.{fmt}', f'ext.{fmt}', f'main.{fmt}', f'absent.{fmt}']
     try:
@@ -1076,7 +1099,14 @@ def registry_scenario(env, model, rng, timeout):
                 except Exception:
                     pass
     finally:
-        os.remove(env.path(f'm2.{fmt}'))
+        for k in written:
+            if k in env.files:
+                with open(env.path(k), 'wb') as f:
+                    f.write(env.files[k])
+            else:
+                os.remove(env.path(k))
+    rs.saw_alias = any(not os.path.isabs(k) for k in rs.resources) or any(
+        not os.path.isabs(k) for op in rs.oplog for k, _ in op[2])
     return len(rs.oplog), problems, compare_with_model(rs, model)
 
 
@@ -1204,8 +1234,8 @@ def run(ctx, out):
                     stats['intact_not_loading'].append({'format': fmt, 'use_uuid': use_uuid, 'target': target, 'priors': priors})
                 record(env, target, full, priors, 'intact', 'the document as saved', info, r, full)
             # registry walks on the intact documents (get_resource / remove_resource, aliases)
-            for _ in range(3):
-                ncalls, probs, corr = registry_scenario(env, model, rng, timeout)
+            for wi in range(4):
+                ncalls, probs, corr = registry_scenario(env, model, rng, timeout, mapped=(wi % 2 == 1))
                 stats['registry_walk_calls'] += ncalls
                 stats['model_calls'] += 1
                 for clause, msg in probs:
@@ -1311,8 +1341,9 @@ def run(ctx, out):
     out.assumptions += [
         'lxml / json.loads reject every strictly truncated document (A-lxml / A-json); checked: a proper prefix '
         'that loads is reported as half-built',
-        'all documents of one case live in one directory, so the alias key written by _try_resource_autoload is '
-        'the basename of the nested URI (that is how the load script is rebuilt from the trace)',
+        'all documents of one case live in one directory, so the original href string of a nested request is the '
+        'basename of the nested URI (mapped-URI walks: the mapped prefix + basename); that is how the load script '
+        'is rebuilt from the trace; alias keys only arise in the mapped-URI registry walks',
         'nested get_resource calls are observed by subclassing ResourceSet (public API), nothing is patched',
         'objects of previously loaded resources are compared through eGet/eContainer/eResource; an unresolved '
         'proxy is compared as such (not resolved by the observation)',
